@@ -928,8 +928,9 @@ impl<'a> Gen<'a> {
         if r < 20 {
             return self.lit(t);
         }
-        if r < 30 && !self.generics.is_empty() {
-            let (g, k) = self.rng.pick(&self.generics).clone();
+        let callable: Vec<(String, u8)> = self.generics.iter().filter(|(_, k)| *k != 7).cloned().collect();
+        if r < 30 && !callable.is_empty() {
+            let (g, k) = self.rng.pick(&callable).clone();
             self.st.hit("generic-call");
             let a = self.expr(t, d - 1, sc);
             return match k {
@@ -939,10 +940,13 @@ impl<'a> Gen<'a> {
                     let b = self.expr(ot, d - 1, sc);
                     format!("{}({}, {})", g, a, b)
                 }
-                _ => {
+                3 => {
                     let n = self.expr(Ty::Int, d - 1, sc);
                     format!("{}({}, {})", g, a, n)
                 }
+                4 => format!("{}(Array[{}, {}], {})", g, a, self.expr(t, 0, sc), self.expr(t, 0, sc)),
+                5 => format!("{}(Vec[{}], {})", g, a, self.expr(t, 0, sc)),
+                _ => format!("{}(Array[Array[{}]], {})", g, a, self.expr(t, 0, sc)),
             };
         }
         if r < 38 && t != Ty::Point {
@@ -1078,6 +1082,13 @@ impl<'a> Gen<'a> {
                 return format!("{}{} = {}\n", p, v.name, self.expr(v.ty, 2, sc));
             }
         }
+        let g7: Vec<String> = self.generics.iter().filter(|(_, k)| *k == 7).map(|(g, _)| g.clone()).collect();
+        if r >= 22 && r < 25 && !g7.is_empty() {
+            self.st.hit("generic-call-compound-result");
+            let t = *self.rng.pick(&[Ty::Int, Ty::Bool, Ty::Str, Ty::Float]);
+            let w = self.name("w");
+            return format!("{}let {} = {}({})\n", p, w, self.rng.pick(&g7), self.expr(t, 1, sc));
+        }
         if r < 32 {
             self.st.hit("call-stmt");
             let t = *self.rng.pick(&[Ty::Int, Ty::Bool, Ty::Str]);
@@ -1182,7 +1193,7 @@ impl<'a> Gen<'a> {
             let tail = if self.rng.chance(4, 5) { format!("{}return {}\n", Self::ind(ind + 1), e) } else { String::new() };
             let arg = self.expr(Ty::Int, 1, sc);
             let mut extra = String::new();
-            let g1: Vec<String> = self.generics.iter().filter(|(_, k)| *k == 1).map(|(g, _)| g.clone()).collect();
+            let g1: Vec<String> = self.generics.iter().filter(|(_, k)| *k == 1 || *k == 7).map(|(g, _)| g.clone()).collect();
             if !g1.is_empty() && self.rng.chance(1, 3) {
                 // a function value as the type argument of a generic call
                 self.st.hit("closure-to-generic");
@@ -1221,17 +1232,35 @@ impl<'a> Gen<'a> {
             s.push_str("struct Box<T> { v: T }\n");
             self.st.hit("generic-struct-decl");
         }
+        // name collisions between type parameters and structs: the parameter must win
+        if self.rng.chance(1, 4) {
+            self.st.hit("struct-named-like-type-param");
+            s.push_str(if self.rng.chance(1, 2) { "struct T { a: int }\n" } else { "struct U { a: int, b: int }\n" });
+        }
+        if self.rng.chance(1, 5) {
+            self.st.hit("early-local-struct-named-like-type-param");
+            let nm = if self.rng.chance(1, 2) { "T" } else { "U" };
+            s.push_str(&format!("fn early{}() -> int {{\n  struct {} {{ a: int }}\n  let e = {} {{ a: 1 }}\n  return e.a\n}}\n", self.fresh, nm, nm));
+        }
         s.push_str("fn add2(a: int, b: int) -> int { return a + b }\n");
         // generic helpers
         let ng = self.rng.below(5);
         for _ in 0..ng {
             let g = self.name("g");
-            let kind = 1 + self.rng.below(3) as u8;
+            let kind = 1 + self.rng.below(7) as u8;
             let (sig, mut sc) = match kind {
                 1 => (format!("fn {}<T>(x: T) -> T", g), vec![]),
                 2 => (format!("fn {}<T, U>(x: T, y: U) -> T", g), vec![]),
-                _ => (format!("fn {}<T>(x: T, n: int) -> T", g), vec![Var { name: "n".into(), ty: Ty::Int, mutable: false }]),
+                3 => (format!("fn {}<T>(x: T, n: int) -> T", g), vec![Var { name: "n".into(), ty: Ty::Int, mutable: false }]),
+                // type parameter inside compound types: params, locals, result
+                4 => (format!("fn {}<T>(xs: Array<T>, x: T) -> T", g), vec![]),
+                5 => (format!("fn {}<T>(xs: Vec<T>, x: T) -> T", g), vec![]),
+                6 => (format!("fn {}<T>(xss: Array<Array<T> >, x: T) -> T", g), vec![]),
+                _ => (format!("fn {}<T>(x: T) -> Array<T>", g), vec![]),
             };
+            if kind >= 4 {
+                self.st.hit("generic-over-compound-type");
+            }
             self.st.hit("generic-fn");
             // bodies of generic functions never mention other generics unless asked for below
             let saved = std::mem::take(&mut self.generics);
@@ -1243,9 +1272,12 @@ impl<'a> Gen<'a> {
                 let (h, k) = self.rng.pick(&saved).clone();
                 self.st.hit("generic-calls-generic");
                 body.push_str(&match k {
-                    1 => format!("  let w = {}(x)\n", h),
+                    1 | 7 => format!("  let w = {}(x)\n", h),
                     2 => format!("  let w = {}(x, 1)\n", h),
-                    _ => format!("  let w = {}(x, 2)\n", h),
+                    3 => format!("  let w = {}(x, 2)\n", h),
+                    4 => format!("  let w = {}(Array[x], x)\n", h),
+                    5 => format!("  let w = {}(Vec[x, x], x)\n", h),
+                    _ => format!("  let w = {}(Array[Array[x]], x)\n", h),
                 });
             } else if flavour == 1 {
                 self.st.hit("struct-literal-in-generic");
@@ -1254,8 +1286,18 @@ impl<'a> Gen<'a> {
                 self.st.hit("generic-struct-literal");
                 body.push_str("  let bx = Box { v: x }\n");
             }
+            if kind >= 4 || self.rng.chance(1, 4) {
+                self.st.hit("compound-local-in-generic");
+                body.push_str(if self.rng.chance(1, 2) { "  let ys = Array[x, x]\n" } else { "  let zs = Vec[x]\n  let yss = Array[Array[x]]\n" });
+            }
+            if self.rng.chance(1, 12) {
+                // a function type mentioning T (the lambda itself is the open finding KF-C17-11)
+                self.st.hit("lambda-over-type-param-in-generic");
+                body.push_str("  let lf = fn(a: T) -> T { return a }\n");
+            }
             self.generics = saved;
-            s.push_str(&format!("{} {{\n{}  return x\n}}\n", sig, body));
+            let ret = if kind == 7 { "Array[x, x]" } else { "x" };
+            s.push_str(&format!("{} {{\n{}  return {}\n}}\n", sig, body, ret));
             self.generics.push((g, kind));
         }
         // plain functions
